@@ -2736,6 +2736,42 @@ func (p *Posix) PutObject(ctx context.Context, po s3response.PutObjectInput) (s3
 	if po.ContentLength != nil {
 		contentLength = *po.ContentLength
 	}
+	// the readers that verify the supplied checksums are stacked on the body
+	// for a directory object as for a file object
+	hash := md5.New()
+	rdr := io.TeeReader(po.Body, hash)
+
+	hashConfigs := []hashConfig{
+		{po.ChecksumCRC32, utils.HashTypeCRC32},
+		{po.ChecksumCRC32C, utils.HashTypeCRC32C},
+		{po.ChecksumSHA1, utils.HashTypeSha1},
+		{po.ChecksumSHA256, utils.HashTypeSha256},
+		{po.ChecksumCRC64NVME, utils.HashTypeCRC64NVME},
+	}
+	var hashRdr *utils.HashReader
+
+	for _, config := range hashConfigs {
+		if config.value != nil {
+			hashRdr, err = utils.NewHashReader(rdr, *config.value, config.hashType)
+			if err != nil {
+				return s3response.PutObjectOutput{}, fmt.Errorf("initialize hash reader: %w", err)
+			}
+
+			rdr = hashRdr
+		}
+	}
+
+	// If only the checksum algorithm is provided register
+	// a new HashReader to calculate the object checksum
+	if hashRdr == nil && po.ChecksumAlgorithm != "" {
+		hashRdr, err = utils.NewHashReader(rdr, "", utils.HashType(strings.ToLower(string(po.ChecksumAlgorithm))))
+		if err != nil {
+			return s3response.PutObjectOutput{}, fmt.Errorf("initialize hash reader: %w", err)
+		}
+
+		rdr = hashRdr
+	}
+
 	if strings.HasSuffix(*po.Key, "/") {
 		// object is directory
 		if contentLength != 0 {
@@ -2749,9 +2785,13 @@ func (p *Posix) PutObject(ctx context.Context, po s3response.PutObjectInput) (s3
 		// read to its end: the deferred request signature (and any checksum)
 		// is verified there and reported as a read error
 		if po.Body != nil {
-			_, err = io.Copy(io.Discard, po.Body)
+			received, err := io.Copy(io.Discard, rdr)
 			if err != nil {
 				return s3response.PutObjectOutput{}, err
+			}
+			if received != contentLength {
+				// the declared length of 0 has to hold for the decoded body
+				return s3response.PutObjectOutput{}, s3err.GetAPIError(s3err.ErrDirectoryObjectContainsData)
 			}
 		}
 
@@ -2836,40 +2876,6 @@ func (p *Posix) PutObject(ctx context.Context, po s3response.PutObjectInput) (s3
 		return s3response.PutObjectOutput{}, fmt.Errorf("open temp file: %w", err)
 	}
 	defer f.cleanup()
-
-	hash := md5.New()
-	rdr := io.TeeReader(po.Body, hash)
-
-	hashConfigs := []hashConfig{
-		{po.ChecksumCRC32, utils.HashTypeCRC32},
-		{po.ChecksumCRC32C, utils.HashTypeCRC32C},
-		{po.ChecksumSHA1, utils.HashTypeSha1},
-		{po.ChecksumSHA256, utils.HashTypeSha256},
-		{po.ChecksumCRC64NVME, utils.HashTypeCRC64NVME},
-	}
-	var hashRdr *utils.HashReader
-
-	for _, config := range hashConfigs {
-		if config.value != nil {
-			hashRdr, err = utils.NewHashReader(rdr, *config.value, config.hashType)
-			if err != nil {
-				return s3response.PutObjectOutput{}, fmt.Errorf("initialize hash reader: %w", err)
-			}
-
-			rdr = hashRdr
-		}
-	}
-
-	// If only the checksum algorithm is provided register
-	// a new HashReader to calculate the object checksum
-	if hashRdr == nil && po.ChecksumAlgorithm != "" {
-		hashRdr, err = utils.NewHashReader(rdr, "", utils.HashType(strings.ToLower(string(po.ChecksumAlgorithm))))
-		if err != nil {
-			return s3response.PutObjectOutput{}, fmt.Errorf("initialize hash reader: %w", err)
-		}
-
-		rdr = hashRdr
-	}
 
 	written, err := io.Copy(f, rdr)
 	if err != nil {
